@@ -23,7 +23,7 @@ MANIFEST = {
 
 BOUNDS = {"quick": {"vertices": 3, "dict_entries": 2, "values_per_entry": 2, "matrix": "<=3x3 (ragged rows allowed)"},
           "thorough": {"vertices": 3, "dict_entries": 3, "values_per_entry": 2, "matrix": "<=3x3"}}
-TIME_BUDGET = {"quick": 400, "thorough": 3000}
+TIME_BUDGET = {"quick": 400, "thorough": 1200}
 STUBS = ["uuid.uuid4 -> fresh distinct integer"]
 ASSUMPTIONS = ["cells are integers (truthiness = non-zero); side-array entries are vertices",
                "pool bound: 3 vertices, 1 prior link, 1 prior universe"]
